@@ -456,6 +456,17 @@ class Framer(tasking.Tasker):
         """
         self.change(self.active.outline, self.active.human)
 
+    def suspendeds(self):
+        """Returns list of the frames of the active outline that are suspended
+           below the main frame of a running conditional auxiliary.
+           The Suspender truncates .actives to the main frame's head but the
+           frames below it are still entered so they must be exited whenever
+           the main frame is exited.
+        """
+        if self.active and len(self.actives) < len(self.active.outline):
+            return self.active.outline[len(self.actives):]
+        return []
+
     def deactivate(self):
         """clear .active .actives
         """
@@ -583,6 +594,7 @@ class Framer(tasking.Tasker):
             self.name))
 
         exits = self.actives[:]  #make copy of self.actives so can reverse it
+        exits.extend(self.suspendeds())  # suspended frames are still entered
         self.exit(exits) #exits is reversed in place in exit()
         self.deactivate()
         if not abort:
